@@ -7,11 +7,14 @@ def main():
     run.coq_gate()
     cp.proto_component_check(run, {'C01'}, run.n(350, 8000), run.n(150, 3000))
     cp.glue_cases(run)
+    cp.join_cases(run, run.n(60, 1500))
     run.rule = ('real ZMQReceiver / ZMQSender under the scripted simzmq world: 1-4 sources (all / * / explicit / remapped topics, '
                 "'?' and '??', balanced or not), publisher streams sharing an id sequence with loss, duplication, reordering, skipped "
                 'ids, restarts, control messages; every third history adversarial (non-monotone ids, truncated topic lists, illegal '
                 'call states); recv timeouts 0/100/250/None; per-item outputs and state digests compared with the Gallina machines; '
-                'non-trivial = at least one set returned / one publish; distinct by hash of the item list')
+                'non-trivial = at least one set returned / one publish; distinct by hash of the item list; join family: the real receiver on '
+                '2-3 subscribe-all sources publishing in lock step, every schedule checked inside Coq to satisfy the hypotheses of '
+                'C01_join_lossless (joinA_hyps), rows handed over compared with the published matrix and with the model')
     run.partial = ['the tee-rejoin corollary ("every rejoined set descends from one original frame") over the network model is explored in pipeline mode (C03 check, rejoin topology), not proved; '
                    'its ingredients are: C01_no_mixed_ids, C01_complete_per_source, C01_publisher_wf, C01_id_carried',
                    "a publisher killed between two parts of one publish, and topic names containing '/', are outside the model's network rules"]
